@@ -1538,7 +1538,8 @@ impl World for OpsWorld {
                 s.phase,
                 s.op.is_some(),
                 // (Errors by errno: an interruption or cancellation restarts the operation, any other error ends it.)
-                s.recs.iter().map(|r| format!("{}:{}", if r.res < 0 { r.res } else { r.res.signum() }, r.flags & 0xffff)).collect::<Vec<_>>().join(","),
+                // (and byte counts as they are: a short count makes a composite operation go on, a full one ends it.)
+                s.recs.iter().map(|r| format!("{}:{}", if r.res < 0 || s.kind.class() == Class::Composite { r.res } else { r.res.signum() }, r.flags & 0xffff)).collect::<Vec<_>>().join(","),
                 s.taken,
                 p,
                 woken,
